@@ -1,8 +1,237 @@
 import Driver.Proto
-namespace Driver.C05
+import AdaptaVerif.Model.Bends
+import AdaptaVerif.Check.Hanan
+/-!
+Driver mode `c05`.
 
-def run (_args : List String) : IO UInt32 := do
-  IO.eprintln "driver mode c05: not implemented yet"
-  return 2
+(a) kernels of makepath.cpp (`bends-grid`, `bends-random`, `estimate` cases): every line carries the
+    C++ answer; it is recomputed with `Model.Bends`.  For `bends` the model value is, by
+    `Props.C05.bends_admissible` + `bends_tight`, the exact minimum number of bends; it is
+    additionally cross-checked against an independent brute-force decider of that minimum
+    (`specMin`, enumerating leg sequences).  C++ above the exact minimum = SPECFAIL (the estimator
+    overestimates), any other difference = DIVERGE.
+(b) routed scenes: axis-parallelism of `route()` and `displayRoute()` (exact), and raw route cost
+    (Manhattan length + penalty·bends) against the optimum certified by `Check.Hanan.checkCert`
+    from the harness' untrusted potential + witness.
+-/
+namespace Driver.C05
+open Driver AdaptaVerif.Num AdaptaVerif.Model.Bends AdaptaVerif.Check.Hanan
+open AdaptaVerif.Model.Geometry (Pt)
+
+/-! ### independent decider of the minimum number of bends (Spec.OrthPath semantics) -/
+
+def hMask : Nat → Nat
+  | 0 => 1 | 1 => 2 | 2 => 4 | _ => 8
+
+def maskToH (m : Nat) : Option Nat :=
+  if m = 1 then some 0 else if m = 2 then some 1 else if m = 4 then some 2 else if m = 8 then some 3 else none
+
+/-- can legs with the given orientations (+1 or −1) and zero-allowed flags add up to something of sign `t`? -/
+def feasAxis (legs : List (Int × Bool)) (t : Int) : Bool :=
+  let pos := legs.filter (fun l => l.1 > 0)
+  let neg := legs.filter (fun l => l.1 < 0)
+  if !pos.isEmpty && !neg.isEmpty then true
+  else if pos.isEmpty && neg.isEmpty then t == 0
+  else
+    let allZero := (pos ++ neg).all (fun l => l.2)
+    let tt := if pos.isEmpty then -t else t
+    tt > 0 || (tt == 0 && allZero)
+
+def feasSeq (seq : List Nat) (sx sy : Int) : Bool :=
+  let n := seq.length
+  let tagged := seq.zipIdx.map fun (h, i) => (h, i == 0 || i + 1 == n)
+  let xs := tagged.filterMap fun (h, z) => if hdx h ≠ 0 then some (hdx h, z) else none
+  let ys := tagged.filterMap fun (h, z) => if hdy h ≠ 0 then some (hdy h, z) else none
+  feasAxis xs sx && feasAxis ys sy
+
+/-- all heading sequences with `n` legs starting with `cd`, consecutive legs perpendicular -/
+def seqs (cd : Nat) : Nat → List (List Nat)
+  | 0 => []
+  | 1 => [[cd]]
+  | n + 1 => (seqs cd n).flatMap fun s =>
+      let l := s.getLast?.getD 0
+      [s ++ [(l + 1) % 4], s ++ [(l + 3) % 4]]
+
+def specMin (sx sy : Int) (cd dd : Nat) : Option Nat :=
+  (List.range 6).findSome? fun k =>
+    if k = 0 then none
+    else if (seqs cd k).any (fun s => s.getLast? == some dd && feasSeq s sx sy) then some (k - 1) else none
+
+def sgn (r : Rat) : Int := if r > 0 then 1 else if r < 0 then -1 else 0
+
+/-! ### kernel cases -/
+
+def optStr (o : Option Nat) : String := match o with | some v => toString v | none => "assert"
+
+def checkKernels (c : Case) : CaseResult := Id.run do
+  let mut calls := 0
+  let mut hist : List (String × Nat) := []
+  for l in c.get "dir" do
+    let d := nat! l[0]!
+    calls := calls + 3
+    if dirLeft d != some (nat! l[1]!) then return { verdict := .diverge s!"dirLeft {d}: impl {l[1]!} model {optStr (dirLeft d)}" }
+    if dirRight d != some (nat! l[2]!) then return { verdict := .diverge s!"dirRight {d}: impl {l[2]!} model {optStr (dirRight d)}" }
+    if dirReverse d != some (nat! l[3]!) then return { verdict := .diverge s!"dirReverse {d}: impl {l[3]!} model {optStr (dirReverse d)}" }
+  for l in c.get "dd" do
+    match num? l[0]! with
+    | none => return { verdict := .diverge "unparsable dd" }
+    | some x =>
+      calls := calls + 1
+      if dimDirection x != int! l[1]! then return { verdict := .diverge s!"dimDirection {l[0]!}: impl {l[1]!} model {dimDirection x}" }
+  for l in c.get "od" do
+    match nums? (l.extract 0 4) with
+    | none => return { verdict := .diverge "unparsable od" }
+    | some v =>
+      calls := calls + 2
+      let m := orthogonalDirection ⟨v[0]!, v[1]!⟩ ⟨v[2]!, v[3]!⟩
+      if m != nat! l[4]! then return { verdict := .diverge s!"orthogonalDirection {l}: model {m}" }
+      if orthogonalDirectionsCount m != nat! l[5]! then return { verdict := .diverge s!"orthogonalDirectionsCount {m}: impl {l[5]!}" }
+  for l in c.get "b" do
+    if l.size < 8 then return { verdict := .diverge s!"bends line without result (assertion abort?): {l}" }
+    match num? l[0]!, num? l[1]!, num? l[3]!, num? l[4]! with
+    | some cx, some cy, some dx, some dy =>
+      calls := calls + 1
+      let cd := nat! l[2]!
+      let dd := nat! l[5]!
+      let impl := int! l[6]!
+      let impl2 := int! l[7]!
+      let model := bends ⟨cx, cy⟩ cd ⟨dx, dy⟩ dd
+      let spec := match maskToH cd, maskToH dd with
+        | some a, some b => specMin (sgn (dx - cx)) (sgn (dy - cy)) a b
+        | _, _ => none
+      hist := bumpStats hist s!"bends.{optStr model}" 1
+      match model, spec with
+      | some m, some s =>
+        if m != s then return { verdict := .diverge s!"model bends {m} ≠ brute-force minimum {s} on {l}" }
+        if impl2 != impl then return { verdict := .diverge s!"linked bends {impl} ≠ TU copy {impl2} on {l}" }
+        if impl > (m : Int) then
+          return { verdict := .specfail s!"bends overestimates: impl {impl} > exact minimum {m}; curr=({l[0]!},{l[1]!}) dir {cd} dest=({l[3]!},{l[4]!}) dir {dd}" }
+        if impl != (m : Int) then
+          return { verdict := .diverge s!"bends: impl {impl} model {m}; curr=({l[0]!},{l[1]!}) dir {cd} dest=({l[3]!},{l[4]!}) dir {dd}" }
+      | _, _ => return { verdict := .diverge s!"model/spec undefined on {l}: model {optStr model} spec {optStr spec}" }
+    | _, _, _, _ => return { verdict := .diverge "unparsable b line" }
+  for l in c.get "est" do
+    if l.size < 10 then return { verdict := .diverge s!"estimate line without result (assertion abort?): {l}" }
+    match nums? (l.extract 1 7), num? l[8]!, num? l[9]! with
+    | some v, some pen, some impl =>
+      calls := calls + 1
+      let last : Option Pt := if l[0]! == "1" then some ⟨v[0]!, v[1]!⟩ else none
+      let m := estimatedCostSpecific last ⟨v[2]!, v[3]!⟩ ⟨v[4]!, v[5]!⟩ (nat! l[7]!) pen
+      hist := bumpStats hist (if last.isNone then "est.start" else "est.heading") 1
+      match m with
+      | some e => if e != impl then return { verdict := .diverge s!"estimatedCostSpecific {l}: model {ratToString e}" }
+      | none => return { verdict := .diverge s!"estimatedCostSpecific {l}: model hits an assertion, impl returned" }
+    | _, _, _ => return { verdict := .diverge "unparsable est line" }
+  return { verdict := .ok, nontrivial := calls > 0, stats := ("kernel.calls", calls) :: hist }
+
+/-! ### scenes -/
+
+def pts? (ts : Array String) : Option (List (Rat × Rat)) := do
+  let v ← nums? ts
+  if v.size % 2 != 0 then none
+  let mut out : List (Rat × Rat) := []
+  for i in [0:v.size / 2] do
+    out := (v[2*i]!, v[2*i+1]!) :: out
+  return out.reverse
+
+/-- first pair of consecutive points that differ in both coordinates -/
+def firstDiagonal : List (Rat × Rat) → Option ((Rat × Rat) × (Rat × Rat))
+  | a :: b :: t => if a.1 ≠ b.1 ∧ a.2 ≠ b.2 then some (a, b) else firstDiagonal (b :: t)
+  | _ => none
+
+/-- headings of the non-degenerate segments of an axis-parallel polyline -/
+def headings : List (Rat × Rat) → List Nat
+  | a :: b :: t =>
+    let rest := headings (b :: t)
+    if b.1 > a.1 then 1 :: rest else if b.1 < a.1 then 3 :: rest
+    else if b.2 > a.2 then 2 :: rest else if b.2 < a.2 then 0 :: rest else rest
+  | _ => []
+
+def polyLen : List (Rat × Rat) → Rat
+  | a :: b :: t => AdaptaVerif.Check.Hanan.absR (b.1 - a.1) + AdaptaVerif.Check.Hanan.absR (b.2 - a.2) + polyLen (b :: t)
+  | _ => 0
+
+/-- bends as charged by makepath.cpp `cost()`: 1 per quarter turn, 2 for doubling back -/
+def bendsOfHeadings : List Nat → Nat
+  | a :: b :: t => (if a = b then 0 else if (a + 2) % 4 = b then 2 else 1) + bendsOfHeadings (b :: t)
+  | _ => 0
+
+def anyBlocked (sc : Scene) : List (Rat × Rat) → Bool
+  | a :: b :: t => segBlocked sc a.1 a.2 b.1 b.2 || anyBlocked sc (b :: t)
+  | _ => false
+
+def witStates : List (Nat × Nat) → List State
+  | a :: b :: t =>
+    let h := if b.1 > a.1 then 1 else if b.1 < a.1 then 3 else if b.2 > a.2 then 2 else 0
+    ⟨b.1, b.2, h⟩ :: witStates (b :: t)
+  | _ => []
+
+def tol : Rat := 1 / 1000000
+
+def checkScene (c : Case) : CaseResult := Id.run do
+  let some pen := (c.get1 "pen").bind (fun l => num? l[0]!) | return { verdict := .diverge "no pen" }
+  let some buf := (c.get1 "buf").bind (fun l => num? l[0]!) | return { verdict := .diverge "no buf" }
+  let mut rects : List Rect := []
+  for l in c.get "rect" do
+    match nums? l with
+    | some v => rects := ⟨v[0]! - buf, v[1]! - buf, v[2]! + buf, v[3]! + buf⟩ :: rects
+    | none => return { verdict := .diverge "unparsable rect" }
+  let some sl := c.get1 "src" | return { verdict := .diverge "no src" }
+  let some tl := c.get1 "dst" | return { verdict := .diverge "no dst" }
+  let some sv := nums? (sl.extract 0 2) | return { verdict := .diverge "bad src" }
+  let some tv := nums? (tl.extract 0 2) | return { verdict := .diverge "bad dst" }
+  let sc : Scene := { rects := rects.reverse, sx := sv[0]!, sy := sv[1]!, tx := tv[0]!, ty := tv[1]!,
+                      smask := nat! sl[2]!, tmask := nat! tl[2]!, pen := pen }
+  let restricted := sc.smask != 15 || sc.tmask != 15
+  let stats0 : List (String × Nat) := [(s!"rects.{rects.length / 5 * 5}+", 1), (s!"pen.{ratToString pen}", 1),
+      (if restricted then "masks.restricted" else "masks.all", 1)]
+  -- implementation observables
+  let some rl := c.get1 "route" | return { verdict := .diverge "no route line (crash?)" }
+  let some dl := c.get1 "display" | return { verdict := .diverge "no display line" }
+  let some route := pts? rl | return { verdict := .diverge "unparsable route" }
+  let some disp := pts? dl | return { verdict := .diverge "unparsable display route" }
+  -- sentence 1: exactly axis-parallel
+  if let some (a, b) := firstDiagonal route then
+    return { verdict := .specfail s!"route() segment not axis-parallel: ({ratToString a.1},{ratToString a.2})-({ratToString b.1},{ratToString b.2})", stats := stats0 }
+  if let some (a, b) := firstDiagonal disp then
+    return { verdict := .specfail s!"displayRoute() segment not axis-parallel: ({ratToString a.1},{ratToString a.2})-({ratToString b.1},{ratToString b.2})", stats := stats0 }
+  if route.head? != some (sc.sx, sc.sy) || route.getLast? != some (sc.tx, sc.ty) then
+    return { verdict := .diverge "route() does not join the endpoints", stats := stats0 }
+  -- sentence 2: certified optimum
+  let reach := ((c.get1 "reachable").map (fun l => l[0]! == "1")).getD false
+  if !reach then
+    return { verdict := .ok, nontrivial := false, stats := ("oracle.unreachable", 1) :: stats0 }
+  let some potL := c.get1 "pot" | return { verdict := .diverge "no potential" }
+  let some pot := nums? potL | return { verdict := .diverge "unparsable potential" }
+  let some witL := c.get1 "wit" | return { verdict := .diverge "no witness" }
+  let witIdx : List (Nat × Nat) := (List.range (witL.size / 2)).map fun i => (nat! witL[2*i]!, nat! witL[2*i+1]!)
+  let cert : Cert := { pot := pot, wit := witStates witIdx }
+  match checkCert sc cert with
+  | none => return { verdict := .diverge s!"oracle certificate rejected: {explain sc cert}", stats := stats0 }
+  | some opt =>
+    let hs := headings route
+    let nb := bendsOfHeadings hs
+    let cost := polyLen route + (nb : Rat) * pen
+    let stats := (s!"route.bends.{min nb 6}", 1) :: ("cert.states", pot.size) :: stats0
+    let nontrivial := nb > 0
+    if AdaptaVerif.Check.Hanan.absR (cost - opt) ≤ tol then
+      return { verdict := .ok, nontrivial := nontrivial, stats := stats }
+    else if cost > opt then
+      return { verdict := .specfail s!"suboptimal route: cost {ratToString cost} ({nb} bends) > certified optimum {ratToString opt}; penalty {ratToString pen}, masks {sc.smask}/{sc.tmask}", stats := stats }
+    else
+      -- cheaper than every route of the state graph: the route must be breaking a rule
+      let g := mkGrid sc
+      let offGrid := route.any fun p => !(g.xs.contains p.1 && g.ys.contains p.2)
+      let firstOk := match hs.head? with | some h => sc.smask &&& visBit h != 0 | none => false
+      let lastOk := match hs.getLast? with | some h => sc.tmask &&& visBit ((h + 2) % 4) != 0 | none => false
+      if anyBlocked sc route then
+        return { verdict := .specfail s!"route crosses the interior of an obstacle (cost {ratToString cost} < optimum {ratToString opt})", stats := stats }
+      else if !firstOk || !lastOk then
+        return { verdict := .specfail s!"route violates direction restriction (leaves/enters an endpoint in a direction outside masks {sc.smask}/{sc.tmask}); cost {ratToString cost} < restricted optimum {ratToString opt}", stats := stats }
+      else
+        return { verdict := .diverge s!"valid route cheaper than certified optimum: cost {ratToString cost} < {ratToString opt} (offGrid={offGrid}) — oracle/Hanan assumption broken", stats := stats }
+
+def run (_args : List String) : IO UInt32 :=
+  runCases (fun c => if c.tag.startsWith "scene" then checkScene c else checkKernels c)
 
 end Driver.C05
